@@ -177,6 +177,26 @@ def binBounds (fs : List Expr) (op : BOp) (l : Expr) (lb : IR) (r : Expr) (rb : 
       | none => none
     else none
   | .ne | .lt | .le | .eq | .ge | .gt | .and | .or => some (mkIR 0 1)
+  -- `bcheckExprCall` (the argument must fit the parameter type — the receiver's base type)
+  -- then `bcheckExprCallSpecialCases`, IDMin / IDMax
+  | .bmin | .bmax =>
+    match (typeOf l).base.shiftBounds, (typeOf l).base.numBounds with
+    | some _, some (tlo, thi) =>
+      if !containsIR (mkIR tlo thi) rb then none
+      else match lb.lo, lb.hi, rb.lo, rb.hi with
+        | some a, some b, some c, some d =>
+          if op == .bmin then some (mkIR (imin a c) (imin b d)) else some (mkIR (imax a c) (imax b d))
+        | _, _, _, _ => none
+    | _, _ => none
+  -- IDLowBits / IDHighBits: parameter `n: u32[..= bits - 1]`, result `[0, bitMask(max n)]`
+  | .lowbits | .highbits =>
+    match (typeOf l).base.shiftBounds with
+    | some (slo, shi) =>
+      if !containsIR (mkIR slo shi) rb then none
+      else match rb.hi with
+        | some h => some (mkIR 0 (bitMaskN h.toNat))
+        | none => none
+    | none => none
 
 /-- `bcheckExprUnaryOp` -/
 def unaryBounds (op : UOp) (rb : IR) : Option IR :=
